@@ -102,6 +102,26 @@ SYMRT_HARNESS(C20_polyhedron) {
     // no timeout is pending any more: the same calls now succeed
     symrt::require(ppl_Polyhedron_is_empty(ph) >= 0 && ppl_Polyhedron_is_bounded(ph) >= 0, "C20: a timeout was reported after ppl_reset_deterministic_timeout");
     break; }
+  case 4: { // optimisation entry points on an NNC polyhedron built through the interface: values, attainment flag and point equal the C++ answers
+    ppl_Polyhedron_t nh; ppl_new_NNC_Polyhedron_from_space_dimension(&nh, n, 0); NNC_Polyhedron nref(n);
+    for (unsigned i = 0; i < m; ++i) { SymRow r = sym_row(S("s", i), n, 1, Bb, 3); ppl_Constraint_t c = c_constraint(r); symrt::require(ppl_Polyhedron_add_constraint(nh, c) == 0, "C20: add_constraint (NNC) failed"); ppl_delete_Constraint(c); nref.add_constraint(row_constraint(r)); }
+    std::vector<mpz_class> oc; Linear_Expression obj; ppl_Linear_Expression_t le; ppl_new_Linear_Expression_with_dimension(&le, n);
+    for (unsigned j = 0; j < n; ++j) { oc.push_back(symrt::input(S("o", j), -1, 1)); obj += oc[j] * Variable(j); ppl_Coefficient_t c; c_coeff(&c, oc[j]); ppl_Linear_Expression_add_to_coefficient(le, j, c); ppl_delete_Coefficient(c); }
+    bool maxi = symrt::flag("max"), withp = symrt::flag("with_point");
+    ppl_Coefficient_t cn, cd; c_coeff(&cn, mpz_class(7)); c_coeff(&cd, mpz_class(7)); int att = 7; ppl_Generator_t g; ppl_new_Generator_zero_dim_point(&g);
+    int rc = withp ? (maxi ? ppl_Polyhedron_maximize_with_point(nh, le, cn, cd, &att, g) : ppl_Polyhedron_minimize_with_point(nh, le, cn, cd, &att, g))
+                   : (maxi ? ppl_Polyhedron_maximize(nh, le, cn, cd, &att) : ppl_Polyhedron_minimize(nh, le, cn, cd, &att));
+    Coefficient rn, rd; bool ratt = false; Generator rg = point();
+    bool rok = maxi ? nref.maximize(obj, rn, rd, ratt, rg) : nref.minimize(obj, rn, rd, ratt, rg);
+    symrt::require(rc >= 0 && (rc > 0) == rok, "C20: the return value of the optimisation entry point differs from the C++ answer");
+    if (rok) {
+      const Coefficient& gn = *reinterpret_cast<const Coefficient*>(cn); const Coefficient& gd = *reinterpret_cast<const Coefficient*>(cd);
+      symrt::check(term(gn) * term(rd) == term(rn) * term(gd), "C20: the optimum value through the interface differs from the C++ value");
+      symrt::require((att != 0) == ratt && (att == 0 || att == 1), "C20: the attainment flag through the interface differs from the C++ answer");
+      if (withp) { const Generator& cg = *reinterpret_cast<const Generator*>(g); symrt::require(cg.type() == rg.type() && cg.is_equivalent_to(rg), "C20: the optimising point through the interface differs from the C++ point"); }
+    }
+    ppl_delete_Generator(g); ppl_delete_Coefficient(cn); ppl_delete_Coefficient(cd); ppl_delete_Linear_Expression(le); ppl_delete_Polyhedron(nh);
+    break; }
   }
   ppl_delete_Polyhedron(ph); ppl_delete_Polyhedron(qh);
   symrt::poll_abort();
